@@ -20,6 +20,12 @@
 (*        overriding method that exists in the overridden method is        *)
 (*        skipped (`continue`), its qualifiers are neither inherited nor   *)
 (*        validated; TRUE = repaired design                                *)
+(*   InitRestated         FALSE = the code as it is: a qualifier that an    *)
+(*        overriding element restates (DisableOverride with the same value *)
+(*        or a Restricted one) is not passed to _init_qualifier; when the  *)
+(*        class came through CreateClass/ModifyClass its flavor attributes *)
+(*        stay None, so below it is treated as Restricted and overridable  *)
+(*        (the MOF compiler sets the flavors itself); TRUE = repaired      *)
 (*   OriginFromSuper      TRUE = regression variant: class_origin of an    *)
 (*        overriding element is the direct superclass                      *)
 (*   AllowModifyBusy      TRUE = regression variant: ModifyClass accepted  *)
@@ -27,39 +33,48 @@
 (***************************************************************************)
 EXTENDS ClassModel, FiniteSetsExt, SequencesExt
 
-CONSTANTS ClassLevelPropagate, ParamResolve, OriginFromSuper, AllowModifyBusy
+CONSTANTS ClassLevelPropagate, ParamResolve, InitRestated, OriginFromSuper,
+          AllowModifyBusy
 
 E_INVALID_PARAMETER == 4
 E_CLASS_HAS_CHILDREN == 8
 E_CLASS_HAS_INSTANCES == 9
 
 AbsentEl == [present |-> FALSE, ver |-> "", origin |-> "", prop |-> FALSE,
-             quals |-> Q0, xquals |-> Q0]
+             quals |-> Q0, qnf |-> {}, xquals |-> Q0, xqnf |-> {}]
 
 (* _resolve_qualifiers(new, inherited, propagate=True), per qualifier name; *)
-(* "ERR" = CIMError(CIM_ERR_INVALID_PARAMETER) "Not overridable"            *)
-ResolveQ(loc, inh) ==
+(* "ERR" = CIMError(CIM_ERR_INVALID_PARAMETER) "Not overridable".           *)
+(* inhNf = inherited qualifiers whose tosubclass/overridable are None.      *)
+TsAttr(i, inhNf) == ToSub(i) /\ i \notin inhNf      \* `if inh_qual.tosubclass`
+ResolveQ(loc, inh, inhNf) ==
   [i \in QI |->
      IF inh[i] = "" THEN loc[i]
-     ELSE IF ToSub(i)
+     ELSE IF TsAttr(i, inhNf)
      THEN IF Overridable(i)
           THEN (IF loc[i] # "" THEN loc[i] ELSE inh[i])
           ELSE (IF loc[i] = "" THEN inh[i]
                 ELSE IF loc[i] # inh[i] THEN "ERR" ELSE loc[i])
      ELSE loc[i]]                 \* restricted: never copied to an override
+(* restated qualifiers that miss _init_qualifier (flavors stay None) *)
+ResolveNf(loc, inh, inhNf, via) ==
+  {i \in QI : /\ via = "api" /\ ~InitRestated /\ inh[i] # "" /\ loc[i] # ""
+              /\ (TsAttr(i, inhNf) => ~Overridable(i))}
 HasErr(qm) == \E i \in QI : qm[i] = "ERR"
 
 RErr(code) == [ok |-> FALSE, code |-> code]
 
 (* _resolve_class on a deep copy of the new class; store: id -> resolved *)
-ImplResolve(store, name, super, d) ==
+ImplResolve(store, name, super, d, via) ==
   IF super # "" /\ super \notin DOMAIN store THEN RErr(E_INVALID_SUPERCLASS)
   ELSE
   LET hasSup == super # ""
       sup == store[super]
       inhE(e) == hasSup /\ sup.el[e].present
-      cq == IF ClassLevelPropagate /\ hasSup THEN ResolveQ(d.cq, sup.cq)
-            ELSE d.cq
+      cq == IF ClassLevelPropagate /\ hasSup
+            THEN ResolveQ(d.cq, sup.cq, sup.cqnf) ELSE d.cq
+      cqnf == IF ClassLevelPropagate /\ hasSup
+              THEN ResolveNf(d.cq, sup.cq, sup.cqnf, via) ELSE {}
       one(e) ==
         IF d.el[e].present
         THEN IF inhE(e)
@@ -67,13 +82,21 @@ ImplResolve(store, name, super, d) ==
                    origin |-> IF OriginFromSuper THEN super
                               ELSE sup.el[e].origin,
                    prop |-> TRUE,
-                   quals |-> ResolveQ(d.el[e].quals, sup.el[e].quals),
+                   quals |-> ResolveQ(d.el[e].quals, sup.el[e].quals,
+                                      sup.el[e].qnf),
+                   qnf |-> ResolveNf(d.el[e].quals, sup.el[e].quals,
+                                     sup.el[e].qnf, via),
                    xquals |-> IF ParamResolve
-                              THEN ResolveQ(d.el[e].xquals, sup.el[e].xquals)
-                              ELSE d.el[e].xquals]
+                              THEN ResolveQ(d.el[e].xquals, sup.el[e].xquals,
+                                            sup.el[e].xqnf)
+                              ELSE d.el[e].xquals,
+                   xqnf |-> IF ParamResolve
+                            THEN ResolveNf(d.el[e].xquals, sup.el[e].xquals,
+                                           sup.el[e].xqnf, via)
+                            ELSE {}]
              ELSE [present |-> TRUE, ver |-> name, origin |-> name,
-                   prop |-> FALSE, quals |-> d.el[e].quals,
-                   xquals |-> d.el[e].xquals]
+                   prop |-> FALSE, quals |-> d.el[e].quals, qnf |-> {},
+                   xquals |-> d.el[e].xquals, xqnf |-> {}]
         ELSE IF inhE(e) THEN [sup.el[e] EXCEPT !.prop = TRUE]
         ELSE AbsentEl
       el == [e \in Elems |-> one(e)] IN
@@ -82,7 +105,7 @@ ImplResolve(store, name, super, d) ==
   ELSE IF HasErr(cq) \/ \E e \in Elems : HasErr(el[e].quals) \/ HasErr(el[e].xquals)
   THEN RErr(E_INVALID_PARAMETER)
   ELSE [ok |-> TRUE, code |-> 0,
-        cls |-> [super |-> super, cq |-> cq, el |-> el]]
+        cls |-> [super |-> super, cq |-> cq, cqnf |-> cqnf, el |-> el]]
 
 NQ(qm) == Cardinality({i \in QI : qm[i] # ""})
 
